@@ -354,7 +354,15 @@ class HCreateSolutionFrom(Handler):
         if R.per(solute, num) != 0 and den != 'U' and cval > 0:
             got_c = R.concentration(new.contents, solute, num, den)
             amounts = [max(abs(x), q) for x in new.contents.values()] or [q]
-            rel_tol = K * (R.conc_quantum(cval) / cval + sum(q / x for x in amounts) * 2) + 1e-6 + rel_obs
+            # the two portions are taken by volume, each rounded to what the volume storage unit resolves: under litre
+            # storage 0.25 nL out of a 2 M container is 2.5 stored digits (follows from the storage units, §4.1)
+            def top_per_litre(c):
+                lit = R.measure(c.contents, 'L')
+                return R.measure({solute: c.contents.get(solute, 0.0)}, num) / lit if lit > 0 else 0.0
+            portion_rounding = H1.request_quantum('L', source.contents) * (top_per_litre(source) + (top_per_litre(solvent) if container_solvent else 0.0))
+            den_new = R.measure(new.contents, den)
+            rel_portions = portion_rounding / (cval * den_new) if den_new > 0 else 0.0
+            rel_tol = K * (R.conc_quantum(cval) / cval + sum(q / x for x in amounts) * 2 + rel_portions) + 1e-6 + rel_obs
             if not M.ratio('FROM.conc', got_c, cval, rel_tol * cval):
                 bad = True
                 M.violate(['C12'], 'FROM', f'C12:concentration_not_met:{num}/{den}:q={qb}:{skind}',
